@@ -79,3 +79,4 @@ Print Assumptions C04_find_Jdes_total.
 Theorem C04_forced_plan_exact : forall (P : Type) (plan : Z -> P) nf t p, forced_plan plan nf t = Some p -> nf p = t.
 Proof. exact @forced_plan_exact. Qed.
 Print Assumptions C04_forced_plan_exact.
+Print Assumptions C04_step_monotone.
